@@ -29,6 +29,8 @@ for d in sorted(glob.glob(os.path.join(V, "seeded", "C*"))):
         conf = "by its author" if v and all(v.get(k) for k in ("compiles", "tests_pass", "demo_fails_with_change", "demo_passes_without")) else "-"
     pid, rc, cl = res.get(name, (meta.get("property"), "?", ""))
     det = {"1": "VIOLATION (%s)" % cl, "0": "missed", "2": "tool error", "?": "not run"}.get(rc, rc)
+    if rc == "0" and str(meta.get("status", "")).startswith("neutralised"):
+        det = "not reported: neutralised by a later fix (the change no longer breaks the property, see meta.json)"
     s = re.sub(r"\s+", " ", meta.get("summary", ""))[:170].replace("|", "\\|")
     n = re.sub(r"\s+", " ", meta.get("needs", ""))[:150].replace("|", "\\|")
     print("| %s | %s | %s | %s | %s | %s |" % (name, pid, s, n, conf, det.replace("|", "\\|")))
